@@ -17,7 +17,8 @@ CONSTANTS Ops,       \* set of operation names enumerated by this run
           Seed,      \* data salt and sampling salt (VERIF_SEED)
           Shard, NShards,   \* this run prints the cases with hash = Shard (mod NShards)
           AllRS,     \* TRUE: every receiver state for every operand tuple; FALSE: one, chosen by hash
-          Wide       \* TRUE: several view offsets / bandwidths per kind
+          Wide,      \* TRUE: several view offsets / bandwidths per kind
+          Mism       \* TRUE: enumerate calls with mismatched operand shapes (a shape panic is demanded)
 
 N1 == 1 .. MaxN
 
@@ -53,6 +54,22 @@ MOuter(a, x, y) == LET f(i, j) == a * x[i][1] * y[j][1] IN Mk(Rows(x), Rows(y), 
 \* Copy: as much as fits is copied into the top left corner of the receiver's old value R
 MCopyInto(R, A) == LET f(i, j) == IF i <= Rows(A) /\ j <= Cols(A) THEN A[i][j] ELSE R[i][j] IN Mk(Rows(R), Cols(R), f)
 
+\* exact element-wise quotient (the generator only divides multiples of 4 by +-1, +-2, +-4)
+MDivElem(A, B) == LET f(i, j) == A[i][j] \div B[i][j] IN Mk(Rows(A), Cols(A), f)
+DivExact(A, B) == \A i \in 1 .. Rows(A), j \in 1 .. Cols(A) : B[i][j] # 0 /\ (A[i][j] \div B[i][j]) * B[i][j] = A[i][j]
+\* determinant by Laplace expansion along the first row; inverse of a unimodular matrix by the adjugate
+Minor(A, p, q) == LET n == Rows(A)
+                      f(i, j) == A[IF i < p THEN i ELSE i + 1][IF j < q THEN j ELSE j + 1]
+                  IN Mk(n - 1, n - 1, f)
+RECURSIVE DetOf(_)
+DetOf(A) == IF Rows(A) = 1 THEN A[1][1]
+            ELSE LET f(j) == (IF j % 2 = 1 THEN 1 ELSE 0 - 1) * A[1][j] * DetOf(Minor(A, 1, j)) IN SumF(f, Rows(A))
+Cofactor(A, i, j) == IF Rows(A) = 1 THEN 1
+                     ELSE (IF (i + j) % 2 = 0 THEN 1 ELSE 0 - 1) * DetOf(Minor(A, i, j))
+\* defined for det(A) in {1, -1}: the integer matrix X with A X = I
+InvUni(A) == LET d == DetOf(A)  f(i, j) == d * Cofactor(A, j, i) IN Mk(Rows(A), Rows(A), f)
+Unimodular(A) == Rows(A) = Cols(A) /\ DetOf(A) \in {1, 0 - 1} /\ MMul(A, InvUni(A)) = Ident(Rows(A))
+
 SSum(A) == LET f(i) == LET g(j) == A[i][j] IN SumF(g, Cols(A)) IN SumF(f, Rows(A))
 SMax(A) == LET f(i) == LET g(j) == A[i][j] IN MaxF(g, Cols(A)) IN MaxF(f, Rows(A))
 SMin(A) == LET f(i) == LET g(j) == A[i][j] IN MinF(g, Cols(A)) IN MinF(f, Rows(A))
@@ -67,11 +84,12 @@ IsSym(A) == Rows(A) = Cols(A) /\ A = Transpose(A)
 (****************************** operation table *******************************)
 \* receiver families
 DenseOps == {"Add", "Sub", "MulElem", "Mul", "Scale", "Apply", "Copy", "CloneFrom", "Stack", "Augment",
-             "Kronecker", "Pow", "RankOne", "Outer", "Product"}
-VecOps   == {"MulVec", "AddVec", "SubVec", "MulElemVec", "AddScaledVec", "ScaleVec", "CopyVec", "CloneFromVec"}
+             "Kronecker", "Pow", "RankOne", "Outer", "Product", "DivElem", "Inverse", "Solve", "SolveTo"}
+VecOps   == {"MulVec", "AddVec", "SubVec", "MulElemVec", "AddScaledVec", "ScaleVec", "CopyVec", "CloneFromVec",
+             "DivElemVec", "MulVecTo", "SolveVec", "SolveVecTo"}
 SymOps   == {"AddSym", "CopySym", "ScaleSym", "SymRankOne", "SymRankK", "SymOuterK", "RankTwo"}
-TriOps   == {"ScaleTri", "MulTri", "CopyTri"}
-FuncOps  == {"Sum", "Max", "Min", "Trace", "Norm1", "NormInf", "Equal", "Dot", "Inner", "Row", "Col"}
+TriOps   == {"ScaleTri", "MulTri", "CopyTri", "InverseTri"}
+FuncOps  == {"Sum", "Max", "Min", "Trace", "Norm1", "NormInf", "Equal", "Dot", "Inner", "Row", "Col", "Det"}
 AllOps   == DenseOps \cup VecOps \cup SymOps \cup TriOps \cup FuncOps
 Family(op) == CASE op \in DenseOps -> "Dense" [] op \in VecOps -> "Vec" [] op \in SymOps -> "Sym"
                 [] op \in TriOps -> "Tri" [] OTHER -> "Func"
@@ -127,6 +145,17 @@ Demand(op, X, R, n1, n2) ==
             IF Rows(B) = Rows(A) /\ Fits(R, Rows(A), Cols(A)) THEN Ok(MAdd(A, MScale(n1, MMul(B, Transpose(B))))) ELSE Panic
       [] op = "SymOuterK" ->      \* alpha x x^T
             IF Fits(R, Rows(A), Rows(A)) THEN Ok(MScale(n1, MMul(A, Transpose(A)))) ELSE Panic
+      [] op \in {"DivElem", "DivElemVec"} ->
+            IF SameDims(A, B) /\ Fits(R, Rows(A), Cols(A)) THEN Ok(MDivElem(A, B)) ELSE Panic
+      [] op = "MulVecTo" ->       \* a.MulVecTo(dst, trans, x): n1 = 1 means trans
+            LET T == IF n1 = 1 THEN Transpose(A) ELSE A IN
+            IF Cols(T) = Rows(B) /\ Fits(R, Rows(T), 1) THEN Ok(MMul(T, B)) ELSE Panic
+      [] op \in {"Inverse", "InverseTri"} ->
+            IF Rows(A) = Cols(A) /\ Fits(R, Rows(A), Cols(A)) THEN Ok(InvUni(A)) ELSE Panic
+      [] op \in {"Solve", "SolveVec", "SolveTo", "SolveVecTo"} ->   \* the X with op(A) X = B, A unimodular
+            LET T == IF n1 = 1 THEN Transpose(A) ELSE A IN
+            IF Rows(A) = Cols(A) /\ Rows(B) = Rows(A) /\ Fits(R, Rows(A), Cols(B)) THEN Ok(MMul(InvUni(T), B)) ELSE Panic
+      [] op = "Det" -> IF Rows(A) = Cols(A) THEN Ok(Scalar(DetOf(A))) ELSE Panic
       [] op = "Sum" -> Ok(Scalar(SSum(A)))
       [] op = "Max" -> Ok(Scalar(SMax(A)))
       [] op = "Min" -> Ok(Scalar(SMin(A)))
@@ -178,6 +207,15 @@ TriIface == UpperKinds \cup LowerKinds
 TriReps(n) == {x \in MatReps(n, n) : (x.kind \in TriIface \cup {"Diag", "DiagOfDense"}) /\ x.tw \in {"N", "TTri", "TTriBand"}}
 IsUpper(x) == (x.kind \in UpperKinds \cup {"Diag", "DiagOfDense"}) = (x.tw = "N")
 
+\* representations without structural zeros (exact divisors live there)
+FullReps(r, c) == {x \in MatReps(r, c) : x.kind # "Chol" /\ \A i \in 1 .. x.r, j \in 1 .. x.c : Slot(x, i, j) # 0}
+\* representations that can hold a unit triangular matrix
+UnitReps(n) == {x \in MatReps(n, n) : x.kind \notin SymmetricStorage \cup {"Chol"}}
+\* concrete types with MulVecTo / SolveTo / SolveVecTo methods (called on the value itself, no wrapper)
+MulVecToReps(r, c) == {x \in MatReps(r, c) : x.tw = "N" /\ x.kind \in {"Band", "SymBand", "Tridiag"}}
+SolveToReps(n) == {x \in MatReps(n, n) : x.tw = "N" /\ x.kind \in {"TriU", "TriL", "TriUView", "TriLView", "TriBandU", "TriBandL", "Tridiag"}}
+SolveVecToReps(n) == {x \in SolveToReps(n) : x.kind \in {"TriBandU", "TriBandL", "Tridiag"}}
+
 H(x) == Idx(KindSeq, x.kind) * 7 + Idx(TwSeq, x.tw) * 17 + x.r * 3 + x.c * 5 + x.p * 11 + x.q * 13
 \* the generator works on pairs <<representation, hash>> so that sampling costs integer arithmetic only
 Hd(S) == {<<x, H(x)>> : x \in S}
@@ -212,15 +250,48 @@ RSFor(args, extra) == IF AllRS THEN {1, 2, 3} ELSE {1 + ((HS(args) \div NShards 
 
 \* receiver shape: the result shape, or (for sized / view receivers) deliberately wrong shapes
 \* wrong = 1: one more row
+\* n2 > 0: a non-empty receiver of the wrong shape (one row / one column too many): a shape panic is demanded.
+\* Copy-like operations accept any receiver shape.
+AnyShapeOps == {"Copy", "CopyVec", "CopySym", "CopyTri", "CloneFrom", "CloneFromVec"}
+N2For(op, ha, s) ==
+    IF s = 1 \/ op \in AnyShapeOps \/ Family(op) = "Func" \/ (HS(ha) \div 7) % 4 # 0 THEN {0}
+    ELSE IF Family(op) = "Dense" THEN {0, 1 + (HS(ha) % 2)} ELSE {0, 1}
 With(op, argsSet, n1s, r(_), c(_), up(_)) ==
-    UNION {UNION {{LET a == Strip(ha) IN Desc(op, a, n1, 0, RStates[s], r(a), c(a), up(a)) : s \in RSFor(ha, n1)} : n1 \in n1s} :
+    UNION {UNION {UNION {{LET a == Strip(ha) IN
+                          Desc(op, a, n1, n2, RStates[s], r(a) + (IF n2 = 1 THEN 1 ELSE 0), c(a) + (IF n2 = 2 THEN 1 ELSE 0), up(a)) :
+                            n2 \in N2For(op, ha, s)} : s \in RSFor(ha, n1)} : n1 \in n1s} :
              ha \in {x \in argsSet : InShard(x, 0)}}
 
 D1(x) == DimsW(x)[1]
 D2(x) == DimsW(x)[2]
 Alphas == {2, 0 - 1}
 
-CasesOf(op) ==
+\* pairs of shapes
+Shapes == N1 \X N1
+SP == Shapes \X Shapes
+MM(S) == UNION {Hd(MatReps(x[1][1], x[1][2])) \X Hd(MatReps(x[2][1], x[2][2])) : x \in S}
+NK == N1 \X N1
+MismCasesOf(op) ==
+    LET r(a) == D1(a[1])  c(a) == D2(a[1])  u(a) == TRUE  rv(a) == D1(a[1])  c1(a) == 1 IN
+    CASE op \in {"Add", "Sub", "MulElem", "Equal"} -> With(op, MM({x \in SP : x[1] # x[2]}), {0}, r, c, u)
+      [] op = "Mul" -> With(op, MM({x \in SP : x[2][1] # x[1][2]}), {0}, r, c, u)
+      [] op = "Stack" -> With(op, MM({x \in SP : x[2][2] # x[1][2]}), {0}, r, c, u)
+      [] op = "Augment" -> With(op, MM({x \in SP : x[2][1] # x[1][1]}), {0}, r, c, u)
+      [] op = "MulVec" ->
+            With(op, UNION {Hd(MatReps(x[1][1], x[1][2])) \X Hd(VecReps(x[2])) : x \in {y \in Shapes \X N1 : y[2] # y[1][2]}}, {0}, rv, c1, u)
+      [] op \in {"AddVec", "SubVec", "MulElemVec", "Dot"} ->
+            With(op, UNION {Hd(VecReps(x[1])) \X Hd(VecReps(x[2])) : x \in {y \in NK : y[1] # y[2]}}, {0}, rv, c1, u)
+      [] op = "AddSym" ->
+            With(op, UNION {Hd(SymReps(x[1])) \X Hd(SymReps(x[2])) : x \in {y \in NK : y[1] # y[2]}}, {0}, r, c, u)
+      [] op = "SymRankOne" ->
+            With(op, UNION {Hd(SymReps(x[1])) \X Hd(VecReps(x[2])) : x \in {y \in NK : y[1] # y[2]}}, {2}, r, c, u)
+      [] op \in {"Trace", "Pow"} ->
+            With(op, UNION {{<<x>> : x \in Hd(MatReps(p[1], p[2]))} : p \in {x \in Shapes : x[1] # x[2]}}, {2}, r, c, u)
+      [] op = "RankOne" ->
+            With(op, UNION {Hd(MatReps(x[1][1], x[1][2])) \X Hd(VecReps(x[2])) \X Hd(VecReps(x[1][2])) : x \in {y \in Shapes \X N1 : y[2] # y[1][1]}}, {2}, r, c, u)
+      [] OTHER -> {}
+
+NormalCasesOf(op) ==
     CASE op \in {"Add", "Sub", "MulElem"} ->
             LET r(a) == D1(a[1])  c(a) == D2(a[1])  u(a) == TRUE IN
             With(op, UNION {Hd(MatReps(i, j)) \X Hd(MatReps(i, j)) : i \in N1, j \in N1}, {0}, r, c, u)
@@ -307,6 +378,38 @@ CasesOf(op) ==
       [] op = "CopyTri" ->  \* TriDense.Copy(a Matrix): the receiver's triangle of a is copied
             LET r(a) == Max2(1, D1(a[1]) - 1 + (H(a[1]) % 3))  c(a) == r(a)  u(a) == (H(a[1]) % 2) = 0 IN
             With(op, UNION {{<<x>> : x \in Hd(MatReps(i, j))} : i \in N1, j \in N1}, {0}, r, c, u)
+      [] op = "DivElem" ->
+            LET r(a) == D1(a[1])  c(a) == D2(a[1])  u(a) == TRUE IN
+            With(op, UNION {Hd({x \in MatReps(i, j) : x.kind # "Chol"}) \X Hd(FullReps(i, j)) : i \in N1, j \in N1}, {0}, r, c, u)
+      [] op = "DivElemVec" ->
+            LET r(a) == D1(a[1])  c(a) == 1  u(a) == TRUE IN
+            With(op, UNION {Hd(VecReps(i)) \X Hd(VecReps(i)) : i \in N1}, {0}, r, c, u)
+      [] op = "MulVecTo" ->
+            LET r(a) == IF a[1].kind = "Band" THEN a[1].r ELSE a[1].r  c(a) == 1  u(a) == TRUE IN
+            With(op, UNION {Hd(MulVecToReps(i, j)) \X Hd(VecReps(j)) : i \in N1, j \in N1}, {0}, r, c, u)
+            \cup (LET r2(a) == a[1].c IN
+                  With(op, UNION {Hd(MulVecToReps(i, j)) \X Hd(VecReps(i)) : i \in N1, j \in N1}, {1}, r2, c, u))
+      [] op = "Inverse" ->
+            LET r(a) == D1(a[1])  c(a) == D1(a[1])  u(a) == TRUE IN
+            With(op, UNION {{<<x>> : x \in Hd(UnitReps(i))} : i \in N1}, {0}, r, c, u)
+      [] op = "InverseTri" ->
+            LET r(a) == D1(a[1])  c(a) == D1(a[1])  u(a) == IsUpper(a[1]) IN
+            With(op, UNION {{<<x>> : x \in Hd(TriReps(i))} : i \in N1}, {0}, r, c, u)
+      [] op = "Det" ->
+            LET r(a) == 0  c(a) == 0  u(a) == TRUE IN
+            With(op, UNION {{<<x>> : x \in Hd(UnitReps(i))} : i \in N1}, {0}, r, c, u)
+      [] op = "Solve" ->
+            LET r(a) == D1(a[1])  c(a) == D2(a[2])  u(a) == TRUE IN
+            With(op, UNION {Hd(UnitReps(i)) \X Hd(MatReps(i, k)) : i \in N1, k \in N1}, {0}, r, c, u)
+      [] op = "SolveVec" ->
+            LET r(a) == D1(a[1])  c(a) == 1  u(a) == TRUE IN
+            With(op, UNION {Hd(UnitReps(i)) \X Hd(VecReps(i)) : i \in N1}, {0}, r, c, u)
+      [] op = "SolveTo" ->
+            LET r(a) == D1(a[1])  c(a) == D2(a[2])  u(a) == TRUE IN
+            With(op, UNION {Hd(SolveToReps(i)) \X Hd(MatReps(i, k)) : i \in N1, k \in N1}, {0, 1}, r, c, u)
+      [] op = "SolveVecTo" ->
+            LET r(a) == D1(a[1])  c(a) == 1  u(a) == TRUE IN
+            With(op, UNION {Hd(SolveVecToReps(i)) \X Hd(VecReps(i)) : i \in N1}, {0, 1}, r, c, u)
       [] op \in {"Sum", "Max", "Min", "Norm1", "NormInf"} ->
             LET r(a) == 0  c(a) == 0  u(a) == TRUE IN
             With(op, UNION {{<<x>> : x \in Hd(MatReps(i, j))} : i \in N1, j \in N1}, {0}, r, c, u)
@@ -326,13 +429,19 @@ CasesOf(op) ==
             LET r(a) == 0  c(a) == 0  u(a) == TRUE IN
             With(op, UNION {{<<x>> : x \in Hd(MatReps(i, j))} : i \in N1, j \in N1}, 0 .. MaxN - 1, r, c, u)
 
-Cases == UNION {CasesOf(op) : op \in Ops}
+Cases == UNION {IF Mism THEN MismCasesOf(op) ELSE NormalCasesOf(op) : op \in Ops}
 
 (******************************* the printed case *******************************)
 \* data salt of operand position k.  Equal with n1 = 1 compares two operands holding the SAME formula
 \* data (so that the answer TRUE is exercised whenever both structures can hold it)
 SaltOf(d, k) == IF d.op = "Equal" /\ d.n1 = 1 THEN Seed ELSE Seed * 4 + k
-ArgStore(d, k) == StoreOf(d.args[k], SaltOf(d, k))
+UnitOps == {"Inverse", "InverseTri", "Det", "Solve", "SolveVec", "SolveTo", "SolveVecTo"}
+UnitMode(x) == IF x.kind \in UpperKinds THEN "unitU" ELSE IF x.kind \in LowerKinds THEN "unitL"
+               ELSE IF H(x) % 2 = 0 THEN "unitU" ELSE "unitL"
+Mode(d, k) == CASE d.op \in {"DivElem", "DivElemVec"} -> IF k = 1 THEN "x4" ELSE "pow2"
+                [] d.op \in UnitOps /\ k = 1 -> UnitMode(d.args[1])
+                [] OTHER -> "plain"
+ArgStore(d, k) == StoreOfM(d.args[k], SaltOf(d, k), Mode(d, k))
 ArgAbs(d, k) == Abs(d.args[k], ArgStore(d, k))
 
 RecvOf(d) == IF Family(d.op) = "Func" THEN NoRep ELSE RecvRep(Family(d.op), d.rs, d.rr, d.rc, d.up)
@@ -342,6 +451,16 @@ RecvMask(d) == IF RecvOf(d).kind = "None" THEN <<>>
 \* TriDense.Copy copies only the receiver's triangle of the operand: the demanded result is the
 \* receiver's triangle of the copy, zero elsewhere (what At shows of a triangular matrix)
 TriPart(M, upper) == LET f(i, j) == IF (upper /\ i <= j) \/ (~upper /\ i >= j) THEN M[i][j] ELSE 0 IN Mk(Rows(M), Cols(M), f)
+
+\* the result of a symmetric / triangular receiver is symmetric / triangular (sanity of the demand itself)
+WellTyped(d, e, X) ==
+    /\ d.op \in {"DivElem", "DivElemVec"} => DivExact(X[1], X[2])
+    /\ d.op \in UnitOps => Unimodular(X[1])
+    /\ e.panic \/ e.rows = <<>>
+       \/ CASE Family(d.op) = "Sym" -> IsSym(e.rows)
+         [] Family(d.op) = "Tri" -> e.rows = TriPart(e.rows, d.up)
+         [] Family(d.op) = "Vec" -> Cols(e.rows) = 1
+         [] OTHER -> TRUE
 
 \* everything the harness needs, with every backing array evaluated once
 Printed(d) ==
@@ -355,20 +474,12 @@ Printed(d) ==
     IN [op |-> d.op, n1 |-> d.n1, n2 |-> d.n2, rs |-> d.rs, up |-> d.up,
         args |-> [k \in 1 .. Len(d.args) |-> [rep |-> d.args[k], store |-> st[k]]],
         recv |-> [rep |-> rr, store |-> rs, mask |-> RecvMask(d)],
-        exp |-> e]
-
-\* the result of a symmetric / triangular receiver is symmetric / triangular (sanity of the demand itself)
-WellTyped(d, e) ==
-    e.panic \/ e.rows = <<>>
-    \/ CASE Family(d.op) = "Sym" -> IsSym(e.rows)
-         [] Family(d.op) = "Tri" -> e.rows = TriPart(e.rows, d.up)
-         [] Family(d.op) = "Vec" -> Cols(e.rows) = 1
-         [] OTHER -> TRUE
+        exp |-> e, ok |-> WellTyped(d, e, X)]
 
 VARIABLE c
 Init == c \in Cases
 Next == UNCHANGED c
 Spec == Init /\ [][Next]_c
 
-Emit == LET pr == Printed(c) IN WellTyped(c, pr.exp) /\ PrintT(ToJson(pr))
+Emit == LET pr == Printed(c) IN pr.ok /\ PrintT(ToJson(pr))
 =============================================================================
